@@ -19,7 +19,7 @@ EXTENDS Integers, Sequences, FiniteSets, TLC, Json
 
 CONSTANT Family
 
-NearMiss == {"case", "slash", "query", "prefix", "suffix"}
+NearMiss == {"case", "slash", "query", "prefix", "suffix", "otherhost"}
 StrCls   == {"eq", "wrong"} \cup NearMiss \cup {"empty", "absent"}
 IssCls   == {"eq", "wrong", "case", "slash", "prefix", "suffix", "empty", "absent"}
 DestCls  == StrCls \cup {"cur"}
@@ -48,7 +48,7 @@ Base == [entry |-> "xml", signed |-> TRUE, dest |-> "eq", rIss |-> "eq", status 
          rIRT |-> "id1", rTime |-> "in", assns |-> <<GoodAssn(FALSE)>>,
          art |-> [irt |-> "match", iss |-> "eq", status |-> "Success", signed |-> FALSE, time |-> "in"]]
 
-BaseCfg == [eidSet |-> TRUE, audVal |-> "none", curIsAcs |-> TRUE, allowIdp |-> FALSE,
+BaseCfg == [eidSet |-> TRUE, audVal |-> "none", cur |-> "acs", allowIdp |-> FALSE,
             reqVal |-> "none", outstanding |-> {"id1"}]
 
 AudSeqs == { <<>>, <<"eq">>, <<"wrong">>, <<"prefix">>, <<"suffix">>, <<"case">>, <<"slash">>, <<"empty">>,
@@ -87,16 +87,16 @@ ArtC03   == { [Base EXCEPT !.entry = "artifact", !.art = [irt |-> "match", iss |
                 i \in {"eq", "wrong", "prefix", "empty", "absent"}, s \in {"Success", "Requester", "absent"},
                 sg \in BOOLEAN, rs \in BOOLEAN, d \in {"eq", "wrong", "absent"} }
 
-CfgsC03 == { [BaseCfg EXCEPT !.eidSet = e, !.audVal = a, !.curIsAcs = c] :
-               e \in BOOLEAN, a \in {"none", "ok", "fail"}, c \in BOOLEAN }
-CfgsC03small == { BaseCfg, [BaseCfg EXCEPT !.curIsAcs = FALSE], [BaseCfg EXCEPT !.eidSet = FALSE],
-                  [BaseCfg EXCEPT !.audVal = "ok"], [BaseCfg EXCEPT !.audVal = "fail"] }
+CfgsC03 == { [BaseCfg EXCEPT !.eidSet = e, !.audVal = a, !.cur = c, !.allowIdp = i] :
+               e \in BOOLEAN, a \in {"none", "ok", "fail"}, c \in {"acs", "query", "rel"}, i \in BOOLEAN }
+CfgsC03small == { BaseCfg, [BaseCfg EXCEPT !.cur = "query"], [BaseCfg EXCEPT !.cur = "rel"], [BaseCfg EXCEPT !.eidSet = FALSE],
+                  [BaseCfg EXCEPT !.audVal = "ok"], [BaseCfg EXCEPT !.audVal = "fail"], [BaseCfg EXCEPT !.allowIdp = TRUE] }
 
 InitC03q == \/ /\ cfg \in CfgsC03
                /\ in \in Singles(Base) \cup Singles(Unsigned(Base)) \cup TwoConfs \cup TwoAssns \cup NoConfs
             \/ /\ cfg \in CfgsC03small
                /\ in \in Pairs(Base) \cup ArtC03
-            \/ /\ cfg \in {BaseCfg, [BaseCfg EXCEPT !.curIsAcs = FALSE]}
+            \/ /\ cfg \in {BaseCfg, [BaseCfg EXCEPT !.cur = "query"], [BaseCfg EXCEPT !.cur = "rel"]}
                /\ in \in Pairs(Unsigned(Base))
                /\ in.dest # "eq"        \* the pairs of the unsigned layout that involve Destination
             \/ /\ cfg \in CfgsC03small
@@ -138,6 +138,7 @@ InitVars == /\ pc = IF in.entry = "artifact" THEN "ArtIRT" ELSE "RespSig"
 
 Init == /\ CASE Family = "C03q" -> InitC03q [] Family = "C03t" -> InitC03t
              [] Family = "C04q" -> InitC04q [] Family = "C04t" -> InitC04t
+        /\ (in.dest = "cur" => cfg.cur = "query")     \* "cur" = a Destination equal to the received-at URL where that differs from the ACS URL
         /\ InitVars
 
 ----------------------------------------------------------------------------
